@@ -108,8 +108,9 @@ Violations(obs) ==
         THEN {"C14a"} ELSE {})
   \* C14: a forced run does not damage the cache
   \cup (IF quiet /\ \E r \in WrongSkips(obs) : forcedT[r.t] THEN {"C14b"} ELSE {})
-  \* C09: a task whose last execution failed is not treated as up to date
-  \cup (IF quiet /\ \E r \in WrongSkips(obs) : lastFailed[r.t] THEN {"C09b"} ELSE {})
+  \* C09: a task whose last execution failed is not treated as up to date by later runs (read strictly: never skipped,
+  \* even if an earlier success was on the same inputs -- C02 makes no demand in that situation, see MustSkip)
+  \cup (IF quiet /\ \E r \in Rep(obs) : r.skipped /\ lastFailed[r.t] THEN {"C09b"} ELSE {})
   \* C10: after a kill / torn cache: never a wrong skip; behaves normally or stops with an explicit cache error
   \cup (IF (crashed \/ obs.killed) /\
            (\/ WrongSkips(obs) # {}
